@@ -41,6 +41,7 @@ def handle (line : String) : String :=
   | "shell" :: ts => shellLine ts
   | "fd" :: ts => c12Line "fd" ts
   | "fdctor" :: ts => c12Line "fdctor" ts
+  | "fdctortol" :: ts => c12Line "fdctortol" ts
   | "ib" :: ts => c08Line ts
   | "obs" :: ts => obsLine ts
   | "reg" :: ts => c13Line ts
